@@ -900,7 +900,7 @@ class StlSpace(DevSpace):
     elif kind == "bswap":
       out = d[:1024 + 128 * x] + blk(x + 1) + blk(x) + d[1024 + 128 * (x + 2):]
     elif kind == "bmany":
-      out = d[:1024 + 128 * x] + blk(x) * 300 + d[1024 + 128 * x:]
+      out = d[:1024 + 128 * x] + blk(x) * 100 + d[1024 + 128 * x:]
     elif kind == "gdup":
       out = d[:1024] + d
     else:
